@@ -43,13 +43,15 @@ Inductive phase :=
 | PLTls   (* listener TLS handshake *)
 | PIdle   (* readRequest: Peek(1), waiting for the first byte of a request *)
 | PHead   (* readRequest: http.ReadRequest, head incomplete *)
+| PBody   (* head complete, request body still being received (read by the round trip) *)
 | PUp     (* request fully received, waiting for the origin / writing the response *)
 | PMPeek  (* handleMITM: 200 sent, Peek(1), waiting for the first byte of the client hello *)
 | PMTls   (* handleMITM: TLS handshake with the client *)
 | PTunnel (* CONNECT tunnel, no limits *).
 
 Definition phase_idx (p : phase) : N :=
-  match p with PPHdr => 0 | PLTls => 1 | PIdle => 2 | PHead => 3 | PUp => 4 | PMPeek => 5 | PMTls => 6 | PTunnel => 7 end%N.
+  match p with PPHdr => 0 | PLTls => 1 | PIdle => 2 | PHead => 3 | PUp => 4 | PMPeek => 5 | PMTls => 6 | PTunnel => 7
+             | PBody => 8 end%N.
 
 Record st := mkst {
   now : Z;
@@ -108,6 +110,11 @@ Definition rd_after_head (c : cfg) (s : st) : option Z :=
   if whole_set_guard_equal then (if opt_eqb hdr whole then rd s else whole) else whole.
 Definition head_done (c : cfg) (s : st) : st :=
   mkst (now s) PUp (rd_after_head c s) (ctxd s) (ppd s) (now s) (closed s) (nxt s).
+(* head complete, body outstanding: the same deadline handling, but a read from the client stays pending *)
+Definition head_done_body (c : cfg) (s : st) : st :=
+  mkst (now s) PBody (rd_after_head c s) (ctxd s) (ppd s) (now s) (closed s) (nxt s).
+Definition body_done (s : st) : st :=
+  mkst (now s) PUp (rd s) (ctxd s) (ppd s) (now s) (closed s) (nxt s).
 (* CONNECT head complete *)
 Definition connect_done (c : cfg) (s : st) : st :=
   if c_mitm_on c then
@@ -135,7 +142,7 @@ Definition fire_at (s : st) : option Z :=
   match ph s with
   | PPHdr => omin (ppd s) (omin (ctxd s) (rd s))
   | PLTls | PMTls => omin (ctxd s) (rd s)
-  | PIdle | PHead | PMPeek => rd s
+  | PIdle | PHead | PMPeek | PBody => rd s
   | PUp | PTunnel => None     (* nobody reads from the client: an armed deadline closes nothing *)
   end.
 
@@ -143,6 +150,7 @@ Inductive ev :=
 | Tick (d : Z)     (* d time units pass; the client sends nothing that completes the current unit *)
 | Bytes            (* the client sends bytes that do not complete the current unit *)
 | Done             (* the client completes the current unit (PROXY header / handshake / request head) *)
+| DoneHeadBody     (* the client completes a request head that announces a body *)
 | DoneConnect      (* the client completes a CONNECT head (and receives the 200) *)
 | Reply            (* the origin answered and the response has been written; keep-alive *).
 
@@ -175,7 +183,11 @@ Definition step (c : cfg) (s : st) (e : ev) : st :=
       | Done, PHead => head_done c s
       | Done, PMPeek => start_read_request c (clear_ctx (mtls_start c s))
       | Done, PMTls => start_read_request c (clear_ctx s)
+      | Done, PBody => body_done s
       | Done, _ => s
+      | DoneHeadBody, PIdle => head_done_body c (head_start c s)
+      | DoneHeadBody, PHead => head_done_body c s
+      | DoneHeadBody, _ => s
       | DoneConnect, PIdle => connect_done c (head_start c s)
       | DoneConnect, PHead => connect_done c s
       | DoneConnect, _ => s
@@ -198,6 +210,7 @@ Definition limit (c : cfg) (p : phase) : option Z :=
   | PHead => pos (rhdr_eff c)
   | PMPeek => if mitm_peek_deadline then pos (c_mitm c) else None
   | PMTls => pos (if mitm_timeout_guarded then c_mitm c else 0)
+  | PBody => None   (* with ReadTimeout = 0: a slow request body is never cut *)
   | PUp | PTunnel => None
   end.
 
